@@ -1,10 +1,16 @@
 package main
 
 import (
+	"bytes"
+	"context"
 	"encoding/json"
+	"strings"
+	"time"
 	"verif/harness/hlib"
 
 	"mvdan.cc/sh/v3/expand"
+	"mvdan.cc/sh/v3/interp"
+	"mvdan.cc/sh/v3/syntax"
 )
 
 // C24: one vector = (format, args), text as arrays of 1-char strings (hlib.Text).
@@ -47,4 +53,40 @@ func formatEngine(raw json.RawMessage, _ []string) (any, error) {
 		res["errmsg"] = err.Error()
 	}
 	return res, nil
+}
+
+// "sh": run a short script (a printf/echo command line; latin-1 text of the source bytes) in a
+// fresh Runner with the process's working directory; like the generic "interp" engine but
+// without creating a directory per script (printf and echo never touch the file system).
+func init() { hlib.Register("sh", shEngine) }
+
+func shEngine(raw json.RawMessage, _ []string) (res any, err error) {
+	var v hlib.InterpVec
+	if err := json.Unmarshal(raw, &v); err != nil {
+		return nil, err
+	}
+	src := hlib.Unlatin1(v.Src)
+	file, perr := syntax.NewParser(syntax.Variant(hlib.LangOf(v.Lang))).Parse(bytes.NewReader(src), "")
+	if perr != nil {
+		return hlib.RunResult{ParseError: perr.Error(), Status: -1}, nil
+	}
+	var out, errb bytes.Buffer
+	r, nerr := interp.New(interp.StdIO(strings.NewReader(""), &out, &errb),
+		interp.Env(expand.ListEnviron("PATH=/usr/bin:/bin", "LC_ALL=C.UTF-8")))
+	if nerr != nil {
+		return hlib.RunResult{RunError: "New: " + nerr.Error(), Status: -2}, nil
+	}
+	ctx, cancel := context.WithTimeout(context.Background(), 5*time.Second)
+	defer cancel()
+	rr := hlib.RunResult{}
+	if rerr := r.Run(ctx, file); rerr != nil {
+		if st, ok := interp.IsExitStatus(rerr); ok {
+			rr.Status = int(st)
+		} else {
+			rr.RunError = rerr.Error()
+			rr.Status = -2
+		}
+	}
+	rr.Out, rr.Err = hlib.Latin1(out.Bytes()), hlib.Latin1(errb.Bytes())
+	return rr, nil
 }
